@@ -213,7 +213,15 @@ def design_check(ctx):
     m = re.search(r"(\d+) states generated, (\d+) distinct states found", out)
     if "Error" in out or not m:
         raise ToolError("design check of Prover.tla failed:\n" + out[-2000:])
-    return int(m.group(1)), int(m.group(2))
+    gen, dist = int(m.group(1)), int(m.group(2))
+    if not ctx.quick():
+        # thorough: 4 and 5 problems, 2 / 3 / 5 instances, executable present / missing (35 million distinct states, safety only)
+        _, out = V.run_tlc(ctx, "MCProver", "MCProverBig.cfg", {}, workers=8, timeout=3000, xss="64m", xmx="12g")
+        m = re.search(r"(\d+) states generated, (\d+) distinct states found", out)
+        if "Error" in out or not m:
+            raise ToolError("large design check of Prover.tla failed:\n" + out[-2000:])
+        gen, dist = gen + int(m.group(1)), dist + int(m.group(2))
+    return gen, dist
 
 
 def tlc_plans(ctx, cfg, simulate=None):
